@@ -147,4 +147,17 @@ CHECKS["C14"] = dict(
              "all doubles.",
 )
 
+CHECKS["C17"] = dict(
+        src="checks/c17.cpp", cfg="rel", link="static", engine="A-case-explorer",
+        category="exploration", design_ref="DESIGN.md section 4, C17",
+        technique="exhaustive enumeration of every m x every block index x row counts x strides on the real kernels (exact copies), and of every m / row count for the complex-vector kernels against binary128 complex arithmetic",
+        text="For every m = 4..4096 (65536 thorough) and EVERY block index, extraction (single, contiguous with 0..4 rows, three strides; reference and "
+             "AVX) must return exactly evaluations 4b..4b+3, saving must be its inverse and write nothing else; the cplx <-> reim4 conversion is "
+             "run for every m = 4..65536 through the precomp API, the *_simple API and both kernels and must be the identity on all m numbers; "
+             "reim4 dot products (every row count), windowed convolutions (complete small box) and the 14 pointwise mul/addmul kernels (every m "
+             "from the kernel minimum, signed zeros and 2^+-300 included) are compared with the complex-arithmetic definition in binary128 "
+             "within the standard a-priori rounding bound.",
+        note="Floating-point inputs are a structured value set, not all doubles; the bound gamma_k*sum|terms| holds for every IEEE evaluation order.",
+)
+
 NOT_YET = {}
